@@ -593,7 +593,13 @@ func c31(r *Run) {
 		put := findEffects(sb, "call (ago/database.KeyValueWriter).Put((*internal/pebble.Database).NewBatch(p0.blockDB), api/indexer.blockEntryKey("+H+"), (*chain.ExecutedBlock).Marshal(p1)#0)")
 		del := findEffects(sb, "call (ago/database.KeyValueDeleter).Delete((*internal/pebble.Database).NewBatch(p0.blockDB), api/indexer.blockEntryKey(("+H+" - p0.blockWindow)))")
 		wr := findEffects(sb, "call (ago/database.Batch).Write((*internal/pebble.Database).NewBatch(p0.blockDB))")
-		r.check(len(put) == 1 && len(del) == 1 && len(wr) == 1, "C31.R4", "storeBlock:put+delete-in-one-batch", w.rel(sb.Pos()), "Put(key(h), bytes), Delete(key(h - window)), Write on one batch",
+		// two NewBatch calls render alike: the three operations must also be on the same batch value
+		sameBatch := len(put) == 1 && len(del) == 1 && len(wr) == 1
+		if sameBatch {
+			b0 := strip(callArgs(put[0].Ins.(ssa.CallInstruction))[0])
+			sameBatch = strip(callArgs(del[0].Ins.(ssa.CallInstruction))[0]) == b0 && strip(callArgs(wr[0].Ins.(ssa.CallInstruction))[0]) == b0
+		}
+		r.check(len(put) == 1 && len(del) == 1 && len(wr) == 1 && sameBatch, "C31.R4", "storeBlock:put+delete-in-one-batch", w.rel(sb.Pos()), "Put(key(h), bytes), Delete(key(h - window)), Write on one batch",
 			fmt.Sprintf("storeBlock does not put the block at its height and delete height - window in one batch (%d/%d/%d)", len(put), len(del), len(wr)))
 		if len(put) == 1 && len(del) == 1 && len(wr) == 1 {
 			r.successGuards(w, "C31.R4", "storeBlock:write-after-put", put[0].Ins.(ssa.CallInstruction), wr[0].Ins)
